@@ -74,7 +74,7 @@ def rx_ok(r: Ref['mqtt.pdu.PUBLISH']) -> bool:
     """an inbound QoS 2 PUBLISH held until its PUBREL"""
     return (isa(r, 'mqtt.pdu.PUBLISH') and is_int(r.msgId) and 0 <= r.msgId and r.msgId <= 65535 and r.qos == 2
             and is_str(r.topic) and is_bytes(r.payload) and is_bool(r.dup) and is_bool(r.retain)
-            and is_unset(r.deferred) and is_unset(r.alarm))
+            and is_unset(r.deferred) and is_unset(r.alarm) and is_bytes(r.encoded))
 
 
 @spec
